@@ -54,6 +54,10 @@ def params(method, seg, qkey, qval, hval, bodykind, extra=False):
         elif bodykind == "form":
             kw["fargs"] = {"f": "v1", "g": "v 2"}
             body = None
+        elif bodykind == "mform":         # the same fields as multipart/form-data (asked for by the content type)
+            kw["fargs"] = {"f": "v1", "g": "v 2 \u00e9"}
+            kw["headers"] = dict(kw["headers"], **{"Content-Type": "multipart/form-data"})
+            body = None
     return kw, body
 
 
@@ -175,6 +179,16 @@ def judge(r, seg, qkey, qval, hval, method, bodykind, dontcare, pq="none"):
         return "the server's environ has header fields %s, the request on the wire has %s" % (sorted(r["fields"]), sorted(r["sent_fields"]))
     if r["want_body"] is not None and r["body"] != r["want_body"]:
         return "body %r recovered as %r" % (r["want_body"], r["body"])
+    if bodykind == "mform" and method != "GET":
+        import email
+        msg = email.message_from_bytes(b"Content-Type: " + r["ctype"].encode("latin-1") + b"\r\n\r\n" + r["body"])
+        try:
+            fields = {p.get_param("name", header="content-disposition"): p.get_payload(decode=True).decode("utf-8")
+                      for p in msg.get_payload()}
+        except Exception as ex:
+            fields = "unparsable (%s)" % ex
+        if fields != {"f": "v1", "g": "v 2 \u00e9"}:
+            return "multipart form fields recovered as %r from %r" % (fields, r["body"][:200])
     if bodykind == "form" and method != "GET":
         if dict(parse_qsl(r["body"].decode("utf-8"), keep_blank_values=True)) != {"f": "v1", "g": "v 2"}:
             return "form fields recovered as %r" % r["body"]
@@ -233,7 +247,7 @@ def run_reuse(ctx, classes):
 
 def run(ctx):
     classes = set(CLASS)
-    consts = {"Classes": classes, "Methods": {"GET", "POST", "PUT"}, "BodyKinds": {"none", "raw", "json", "form"},
+    consts = {"Classes": classes, "Methods": {"GET", "POST", "PUT"}, "BodyKinds": {"none", "raw", "json", "form", "mform"},
               "MaxAway": 2 if ctx.quick else 3, "PathQueries": set(PATHQ)}
     r = ctx.tlc("http", "ReqChannel", core.cfg_text(constants=consts, invariants=["Identity"]))
     for v in r.violated:
